@@ -84,6 +84,8 @@ inductive Op where
   | mutate
   /-- any other exported function without an arm below: touches no stored iterator and no registry -/
   | other
+  /-- `chewing_Reset` (since the C17 fix): drops the four stored iterators -/
+  | reset
   | upEnumerate (n : Nat)
   | upHasNext
   | upGet
@@ -146,6 +148,7 @@ def freeStep (removes : Bool) (c : Ctx) (addr : Nat) : Outcome (Ctx × Res) :=
 def step (c : Ctx) : Op → Outcome (Ctx × Res)
   | .mutate => .ok ({ c with epoch := c.epoch + 1 }, 0)
   | .other => .ok (c, 0)
+  | .reset => .ok ({ c with uiter := none, cand := none, intv := none, kbt := none }, 0)
   -- user phrases -------------------------------------------------------------------------------------------
   | .upEnumerate n => .ok ({ c with uiter := some { epoch := c.epoch, it := PeekVec.new n } }, 0)
   | .upHasNext =>
